@@ -108,6 +108,11 @@ bool splinetable<Alloc>::write_key(const char* key, const T& value){
 		//refer to section 4.1.2.1 then cfitsio's behavior of allowing long 
 		//keywords (not split by spaces or periods) at all is non-conforming anyway. 
 		for(size_t i=0; i<keylen-1; i++){
+			//cfitsio replaces anything but printable ASCII in a header card by a blank
+			if(key[i]<32 || key[i]>126)
+				throw std::runtime_error("Long (HIERARCH) FITS header keywords may only "
+										 "contain printable ASCII characters (key was '"+
+										 std::string(key)+"')");
 			if(key[i]=='=')
 				throw std::runtime_error("Standard (short) FITS header keywords must not "
 										 "contain '=' characters (key was '"+
@@ -129,6 +134,12 @@ bool splinetable<Alloc>::write_key(const char* key, const T& value){
 	if(ss.fail())
 		return(false);
 	std::string valuedata=ss.str();
+	//cfitsio replaces anything but printable ASCII in a header card by a blank
+	for(size_t i=0; i<valuedata.size(); i++){
+		if(valuedata[i]<32 || valuedata[i]>126)
+			throw std::runtime_error("Value contains a character other than printable ASCII, "
+									 "which cannot be stored in a FITS header ('"+valuedata+"')");
+	}
 	size_t valuelen = valuedata.size() + 1;
 	//For normal (short) keys, we get up to 68 bytes of storage, but for longer keywords
 	//the 'HIERARCH Keyword Convention' kicks in and limits us further
